@@ -81,6 +81,8 @@ type FuncVC struct {
 	axiomStateOrder []string
 	cbAt            *ssa.BasicBlock
 	sideStack       [][]string
+	forallStack     []bool
+	closureDone     map[string]bool
 	pureEnsDepth    int
 	binderDepth     int // >0 while evaluating under a quantifier: no facts may be emitted (they would mention bound variables)
 }
